@@ -288,3 +288,23 @@ def classify(ctx, job, r):
                           "driver killed by signal %d: %s" % (-r.rc, tag), {"cmd": job["cmd"], "stderr": r.err[-4000:], "stdout_tail": r.out[-2000:]})
         else:
             raise Inconclusive("driver exit %d: %s\n%s" % (r.rc, tag, r.err[-1500:]))
+
+
+_LSAN = {}
+
+
+def lsan_env(exe):
+    """Extra environment that switches on the LeakSanitizer queries of an ASan driver, or {} when the leak checker does not work here
+    (it needs ptrace on its own process; a probe that leaks on purpose must be reported and the process must survive)."""
+    if "ok" not in _LSAN:
+        env = env_for("asan")
+        env["ASAN_OPTIONS"] = env["ASAN_OPTIONS"].replace("detect_leaks=0", "detect_leaks=1")
+        env["VH_LSAN"] = "1"
+        try:
+            r = run([exe, "--lsan-probe"], 120, env=env)
+            found = [o.get("found") for o in r.json_lines() if o.get("ev") == "lsan-probe"]
+            _LSAN["ok"] = bool(r.rc == 0 and found and found[0] == 1)
+        except Exception:
+            _LSAN["ok"] = False
+        _LSAN["env"] = {"VH_LSAN": "1", "ASAN_OPTIONS": env["ASAN_OPTIONS"]}
+    return dict(_LSAN["env"]) if _LSAN["ok"] else {}
